@@ -119,6 +119,16 @@ def body_decode(rep, case):
         want = {day(i) for i in range(7) if m & (1 << (i + 1))}
         if out != want:
             raise Violation("C12/decode-mismatch", case, sorted(d.name for d in want), repr(out))
+        # the caller owns the returned set: editing it must not change what a later decode of the same mask returns
+        try:
+            out.clear()
+            out.add(day((m + 3) % 7))
+        except AttributeError:
+            pass
+        again = tools.bit_summary_to_days(m)
+        if again != want:
+            raise Violation("C12/decode-not-repeatable-after-caller-mutation", case, sorted(d.name for d in want), repr(again))
+        out = again
         enc = tools.weekdays_to_hexadecimal(out)
         if int(enc, 16) != m:
             raise Violation("C12/decode-encode", case, f"{m:02x}", enc)
